@@ -110,3 +110,11 @@ claim('C07',
       'direction. These are necessary conditions: one wrong entry breaks rotation equivariance of every bundle/core. Equivariance of computed fields is NOT decided.',
       'Trusted: constant folder dsa/util.const_eval; the geometric meaning attached to each table.',
       'DESIGN.md 4 C07')
+claim('C10',
+      'provenance / sibling-agreement rules on the map construction (ast), tuple-order and call-site orientation checks',
+      'Structural necessary conditions of C10 (DESIGN 4.10): both transfer matrices derive from one interval-overlap matrix whose entries are minima of interval lengths along a monotone walk; '
+      'the region-row matrix is normalised by region cell widths and the gap-row matrix by gap cell widths (so rows sum to one when the overlap is complete), both get the identical split-corner '
+      'fold; every return yields (fine->coarse, coarse->fine) and the caller stores them as gap2duct / duct2gap for every region of every assembly; all 9 map_across_gap call sites use the map of '
+      'the right orientation; the identity shortcut is taken only for equal-shape allclose bounds. Positivity / exactness / conservation of the run-time matrices are NOT decided numerically.',
+      'Trusted: recognised source forms in dsa/rules/c10.py; NumPy broadcasting semantics of (M.T / w).T and (M / w).T.',
+      'DESIGN.md 4 C10')
